@@ -3,13 +3,15 @@
 export GOFLAGS=-mod=mod GOPROXY=off GOSUMDB=off GOTOOLCHAIN=local
 : "${VERIF_ROOT:=$(cd "$(dirname "$0")/.." && pwd)}"
 export VERIF_ROOT
+# the repository under verification (the harness go.mod points at it with a replace directive)
+REPO="${VERIF_REPO:-/repo}"
 cd $VERIF_ROOT/harness || exit 2
 mkdir -p $VERIF_ROOT/bin $VERIF_ROOT/.work
-cmp -s /repo/go.sum go.sum || cp /repo/go.sum go.sum
+cmp -s $REPO/go.sum go.sum || cp $REPO/go.sum go.sum
 go build -o $VERIF_ROOT/bin/instr ./cmd/instr || exit 2
 OV=$VERIF_ROOT/.work/ov-sched
 rm -rf "$OV" && mkdir -p "$OV"
-$VERIF_ROOT/bin/instr -out "$OV" -profile sched \
+$VERIF_ROOT/bin/instr -repo "$REPO" -out "$OV" -profile sched \
   -drop PublicFilterAPI.NewPendingTransactions,PublicFilterAPI.NewHeads,PublicFilterAPI.Logs \
   github.com/EscanBE/evermint/v12/rpc/ethereum/pubsub \
   github.com/EscanBE/evermint/v12/rpc/namespaces/ethereum/eth/filters >"$OV/instr.log" 2>&1 || { cat "$OV/instr.log" >&2; exit 2; }
